@@ -819,6 +819,7 @@ def stepSt (s : State) (t : Tid) (o : Ord) (loc : Loc) (new obs : Nat) : Except 
             .ok (setPc (if c.wc = 0 then enqLast s1 k else enqFirst s1 k) t (.lsRelLd { c with w := some k }))
         | some k' =>
           if k ≠ k' then .error "store to another waiter record than the thread's own"
+          else if (s.wr k).waiting then .error "contract: the thread's waiter record still has waiting ≠ 0"
           else
             let s1 := { s with wr := setFn s.wr k { s.wr k with waiting := true, lType := c.l, cond := none, lnk := false } }
             .ok (setPc (if c.wc = 0 then enqLast s1 k else enqFirst s1 k) t (.lsRelLd c))
@@ -845,6 +846,7 @@ def stepSt (s : State) (t : Tid) (o : Ord) (loc : Loc) (new obs : Nat) : Except 
                       wr := setFn s.wr k { s.wr k with owner := some t, waiting := true, lType := c.l, cond := c.cond, lnk := false } }
         | some k' =>
           if k ≠ k' then .error "store to another waiter record than the thread's own"
+          else if (s.wr k).waiting then .error "contract: the thread's waiter record still has waiting ≠ 0"
           else .ok { setPc s t (.mwRcLd c) with
                       wr := setFn s.wr k { s.wr k with waiting := true, lType := c.l, cond := c.cond, lnk := false } }
     | _ => .error "store to the wrong location"
